@@ -543,10 +543,11 @@ func TestC18Consecutive(t *testing.T) {
 		rapid.SyncTest(rt, func(rt *rapid.T) {
 			col.Case()
 			cfg, zones := drawFleetCfg(rt, true)
-			c, herr := newAWSCase(0, 2, 1000, cfg, zones)
+			c, herr := newAWSCase(0, 2, 20000, cfg, zones)
 			if herr != nil {
 				rt.Fatalf("harness: %v", herr)
 			}
+			huge := rapid.IntRange(0, 5).Draw(rt, "hugeFleets") == 0 // fleets beyond one terminate batch, with the clean-up calls themselves failing
 			consecutive := 0
 			n := rapid.IntRange(3, 8).Draw(rt, "rounds")
 			pattern := ""
@@ -568,6 +569,12 @@ func TestC18Consecutive(t *testing.T) {
 				if rapid.IntRange(0, 2).Draw(rt, "fullBatches") == 0 {
 					d = int64(rapid.SampledFrom([]int{20, 40, 60}).Draw(rt, "dBatches")) // goes out in full attach batches only
 				}
+				if huge {
+					d = int64(rapid.SampledFrom([]int{600, 1001, 1500}).Draw(rt, "dHuge"))
+					if failing && rapid.Bool().Draw(rt, "cleanupFails") {
+						c.j.Arm([]sim.Fault{{Kind: sim.ATerminateInst, Nth: -1, Code: rapid.SampledFrom([]string{"", "RequestLimitExceeded"}).Draw(rt, "code")}})
+					}
+				}
 				mark := c.j.Mark()
 				func() {
 					defer func() {
@@ -581,7 +588,21 @@ func TestC18Consecutive(t *testing.T) {
 					}()
 					callTarget(rt, "C18", "IncreaseSize (fleet)", func() { err = c.ng.IncreaseSize(d) })
 				}()
+				c.j.Disarm()
 				col.Eval(1)
+				if !failing {
+					// a successful round terminates nothing and no call ever carries more than 1000 ids
+					es := c.j.Since(mark)
+					var fleetE *sim.Entry
+					for k := range es {
+						if es[k].Kind == sim.ACreateFleet {
+							fleetE = &es[k]
+						}
+					}
+					if sig, msg, _ := judgeFleetFailure(int(d), fleetFailure{mode: "none"}, es, fleetE, err); sig != "" && !isKnown(sig) {
+						fail(rt, dumpPath(), sig, "pattern %s: %s", pattern, msg)
+					}
+				}
 				if failing {
 					// whatever the attempt number, every acquired instance is attached or submitted for termination
 					es := c.j.Since(mark)
